@@ -55,7 +55,8 @@ Definition is_cen (x : fr) : bool := match x with Cen _ => true | _ => false end
 Definition dfr : fr := Raw 0 0 0.
 
 (* "the same coordinates" as join(discard_overlapping_frames=True) decides it (all |x1 - x0| < 2e-3): equality of
-   the terms after removing atom subsets that select every atom in order (numerically the identity) *)
+   the terms after removing the operations that are numerically the identity: an atom subset selecting every atom in
+   order, centring a centred frame, mass-centring twice, superposing a frame on itself or twice on one reference *)
 Fixpoint width (x : fr) : nat :=
   match x with
   | Raw _ _ w => w
@@ -64,13 +65,29 @@ Fixpoint width (x : fr) : nat :=
   | Sup y _ => width y
   | Stk y z => width y + width z
   end.
+(* the centroid of the frame is the origin *)
+Fixpoint centred (x : fr) : bool :=
+  match x with
+  | Cen _ => true
+  | Sup _ r => centred r          (* a superposed frame has the centroid of its reference *)
+  | _ => false
+  end.
 Fixpoint norm (x : fr) : fr :=
   match x with
   | Raw _ _ _ => x
   | Sub idx y => let y' := norm y in if list_eqb Nat.eqb idx (seq 0 (width y')) then y' else Sub idx y'
-  | Cen y => cen (norm y)
-  | CenM ks y => CenM ks (norm y)
-  | Sup y r => Sup (norm y) (norm r)
+  | Cen y => let y' := norm y in if centred y' then y' else Cen y'            (* centring a centred frame *)
+  | CenM ks y => let y' := norm y in
+                 match y' with
+                 | CenM ks' _ => if list_eqb Nat.eqb ks ks' then y' else CenM ks y'     (* mass-centring twice *)
+                 | _ => CenM ks y'
+                 end
+  | Sup y r => let y' := norm y in let r' := norm r in
+               if fr_eqb y' r' then r'                                   (* a frame superposed on itself stays where it is *)
+               else match y' with
+                    | Sup _ q => if fr_eqb q r' then y' else Sup y' r'   (* superposed twice on the same reference *)
+                    | _ => Sup y' r'
+                    end
   | Stk y z => Stk (norm y) (norm z)
   end.
 Definition fr_same (a b : fr) : bool := fr_eqb (norm a) (norm b).
